@@ -2,18 +2,19 @@
 (* Bounded instances of Steady and behaviour emission.                       *)
 EXTENDS Steady, Json
 
-Cl(p, l, d) == [prev |-> p, last |-> l, drift |-> d]
+Cl(p, l, d) == [prev |-> p, last |-> l, drift |-> d, stays |-> TRUE]
+ClLeaves(p, l, d) == [prev |-> p, last |-> l, drift |-> d, stays |-> FALSE]
 
 (* a representative sub-grid for the second series of the quick instance: one class per   *)
 (* branch of the acceptance test and per sign                                            *)
 MC_Few == { Cl("pL", "pL", "zero"),      Cl("nL", "nL", "small"),
             Cl("pL", "pL", "rel_small"), Cl("nL", "nL", "rel_small"),
             Cl("pL", "pL", "large"),     Cl("nL", "nL", "large"),
-            Cl("z",  "z",  "zero"),      Cl("ne", "pe", "large"),
+            Cl("z",  "z",  "zero"),      Cl("ne", "pe", "large"),     ClLeaves("ne", "pe", "large"),
             Cl("pL", "z",  "large"),     Cl("nL", "pL", "large") }
 
 (* third series of the replayed 3-variable instance *)
-MC_Few3 == { Cl("nL", "nL", "large"), Cl("pL", "pL", "small"), Cl("nL", "nL", "rel_small"), Cl("pe", "ne", "large") }
+MC_Few3 == { Cl("nL", "nL", "large"), Cl("pL", "pL", "small"), Cl("nL", "nL", "rel_small"), ClLeaves("pe", "ne", "large") }
 
 MC_GridThree    == << AllClasses, MC_Few, MC_Few3 >>
 MC_GridQuick    == << AllClasses, MC_Few >>
